@@ -1,6 +1,7 @@
 import Robust.Irc.Proofs.H2Base
 /-! PING, AWAY, ISON, USERHOST, LIST, KNOCK -/
 namespace Robust.Irc
+open Rd
 open AMap
 
 /-! ### PING -/
@@ -27,7 +28,7 @@ theorem cmdAway_inert {c c' : Ctx} {sid : Id} {m : IrcMsg} (hw : WInvCore c.st)
   unfold cmdAway at hr
   obtain ⟨c1, h1, hr⟩ := Res.bind_eq_ok.1 hr
   obtain ⟨s, hs, hr⟩ := Res.bind_eq_ok.1 hr
-  have hI := (Inert.refl hw).modS hw h1 (fun _ => ⟨rfl, rfl, rfl, rfl⟩) (fun _ => rfl)
+  have hI := (Inert.refl hw).modS hw h1 (fun _ => ⟨rfl, rfl, rfl, rfl⟩) (fun _ => ⟨rfl, rfl⟩)
   split at hr <;> (cases hr; exact hI.sendUser _ _)
 
 theorem cmdAway_preserves : Preserves cmdAway := Preserves.of_inert fun _ _ _ _ => cmdAway_inert
@@ -37,7 +38,7 @@ theorem cmdAway_safe : ClientSafe cmdAway 0 true := by
   show NoPanic _
   unfold cmdAway
   refine NoPanic.bind (NoPanic.of_ok ⟨_, modS_of_get _ hs⟩) fun c1 h1 => ?_
-  have hI := (Inert.refl hp.inv.toWInvCore).modS hp.inv.toWInvCore h1 (fun _ => ⟨rfl, rfl, rfl, rfl⟩) (fun _ => rfl)
+  have hI := (Inert.refl hp.inv.toWInvCore).modS hp.inv.toWInvCore h1 (fun _ => ⟨rfl, rfl, rfl, rfl⟩) (fun _ => ⟨rfl, rfl⟩)
   obtain ⟨s1, hs1, _⟩ := hI.getS_ok hs
   rw [hs1]
   simp only [Res.ok_bind]
